@@ -550,6 +550,11 @@ impl<'a> Printer<'a> {
                 self.out.push_str("  ");
             }
             self.out.push('\n');
+            // YAML may begin with empty lines
+            if !self.plain && !front.is_empty() && self.tape.chance(1, 10) {
+                self.f.odd_spacing += 1;
+                self.out.push_str(["\n", "\n\n", "# comment\n\n"][self.tape.pick(3) as usize]);
+            }
             for (k, v) in front {
                 let plain_key = k.chars().all(|c| c.is_ascii_alphabetic() || c == ' ') && !self.tape.chance(1, 6);
                 let key = if plain_key { k.clone() } else { yaml_quote(k) };
@@ -594,6 +599,11 @@ impl<'a> Printer<'a> {
                         }
                         let bl = self.blanks();
                         self.out.push_str(&bl);
+                        // a comment may stand between the markers and the name
+                        if !self.plain && self.tape.chance(1, 10) {
+                            self.f.comments += 1;
+                            self.out.push_str(["[- c -] ", " [- é -]", "[-- x --] "][self.tape.pick(3) as usize]);
+                        }
                         let n = self.words(n);
                         self.out.push_str(&n);
                         self.out.push_str(close);
